@@ -1,0 +1,12 @@
+//go:build verif
+
+package loader
+
+// VerifTables exports the pattern keys of the rule tables (verification builds only).
+func VerifTables() map[string][]string {
+	out := map[string][]string{}
+	for k := range interpolateTypeCastMapping {
+		out["loader.interpolateTypeCastMapping"] = append(out["loader.interpolateTypeCastMapping"], string(k))
+	}
+	return out
+}
